@@ -11,13 +11,13 @@ RULE = ("histories of registry operations over 3 names, 3 files and a pool of va
         "register_template_string / register_partial / register_template / register_template_file / unregister / clear, file "
         "rewrite / delete, dev-mode and prevent_indent toggles, clone-and-diverge; after EVERY step has_template, the keys of "
         "get_templates and a render of every name are observed; EXHAUSTIVE for all sequences of length ≤ 3 (thorough: ≤ 4) "
-        "over a reduced alphabet of 11 operations, random sequences up to length 12 beyond; oracle = a map name -> "
+        "over a reduced alphabet of 14 operations, random sequences up to length 12 beyond; oracle = a map name -> "
         "registration (compiled text with the prevent_indent in force | tracked file) kept by the generator; real files in a "
         "scratch directory; non-trivial = history with at least one successful registration; distinct by history")
 DEFINITE_FLOOR = 0.95
 NAMES = ["a", "b", "c"]
 FILES = ["f1", "f2", "f3"]
-GOOD = ["A{{x}}", "x\n  {{> b}}\ny", "{{#if x}}T{{/if}}", "plain", "{{> b}}!"]
+GOOD = ["A{{x}}", "x\n  {{> b}}\ny", "{{#if x}}T{{/if}}", "plain", "{{> b}}!", "L1\nL2{{x}}"]
 BAD = ["{{#if x}}", "{{/each}}", "{{foo 1.}}", "{{"]
 
 
@@ -96,6 +96,8 @@ def reduced_alphabet():
         {"op": "write_file", "file": "f1", "content": "F3"},
         {"op": "delete_file", "file": "f1"},
         {"op": "set_prevent_indent", "reg": 0, "v": True},
+        {"op": "reg_string", "reg": 0, "name": "b", "src": "L1\nL2{{x}}"},
+        {"op": "reg_file", "reg": 0, "name": "c", "file": "f2"},
     ]
 
 
@@ -115,7 +117,7 @@ def rand_op(rng, nregs):
     if k in ("set_dev", "set_prevent_indent"):
         return {"op": k, "reg": reg, "v": rng.chance(0.5)}
     if k == "write_file":
-        return {"op": k, "file": rng.pick(FILES), "content": rng.pick(["F1{{x}}", "F2\n  {{> b}}\nz", "F3", "{{#bad"])}
+        return {"op": k, "file": rng.pick(FILES), "content": rng.pick(["F1{{x}}", "F2\n  {{> b}}\nz", "F3", "{{#bad", "x\n  {{> b}}\ny"])}
     if k == "delete_file":
         return {"op": k, "file": rng.pick(FILES)}
     return {"op": k, "reg": reg}
@@ -180,7 +182,7 @@ def ref_render(name, snap, depth=0):
         if n in stack:
             return ("err", "CannotIncludeSelf") if stack[-1] == n else "loop"
         out = ""
-        table = {"A{{x}}": lambda: "A1", "{{#if x}}T{{/if}}": lambda: "T", "plain": lambda: "plain", "F1{{x}}": lambda: "F11", "F3": lambda: "F3"}
+        table = {"L1\nL2{{x}}": lambda: "L1\nL21", "A{{x}}": lambda: "A1", "{{#if x}}T{{/if}}": lambda: "T", "plain": lambda: "plain", "F1{{x}}": lambda: "F11", "F3": lambda: "F3"}
         if src in table:
             return ("ok", table[src]())
         # templates that include a partial
@@ -198,7 +200,18 @@ def ref_render(name, snap, depth=0):
             return None
         if sub[0] == "err":
             return sub
-        return None if indented else ("ok", pre + sub[1] + post)
+        if not indented:
+            return ("ok", pre + sub[1] + post)
+        e = m.get(n)
+        if e[0] == "file" and dev:
+            return None          # recompiled at render time with the setting then in force: not distinguished here
+        if pi:
+            # prevent_indent in force when THIS template was registered: the tag's indentation stays text, nothing is added
+            return ("ok", pre + "  " + sub[1] + post)
+        # otherwise every line of the partial's output is indented by the tag's indentation
+        lines = sub[1].split("\n")
+        ind = "\n".join(("  " + l) if (l != "" or i < len(lines) - 1) else l for i, l in enumerate(lines))
+        return ("ok", pre + ind + post)
     return rend(name, [])
 
 
@@ -216,6 +229,30 @@ def generate(rng, n, tier="quick"):
                 continue
             out.append(build(list(hist), "%s-x%06d" % (ID, k)))
             k += 1
+    # directed: the prevent_indent in force at registration is part of what a registration stores, for every way of registering
+    ML = {"op": "reg_string", "reg": 0, "name": "b", "src": "L1\nL2{{x}}"}
+    PI = lambda v: {"op": "set_prevent_indent", "reg": 0, "v": v}
+    INC = "x\n  {{> b}}\ny"
+    ways = [{"op": "reg_file", "reg": 0, "name": "c", "file": "f2"}, {"op": "reg_string", "reg": 0, "name": "c", "src": INC},
+            {"op": "reg_partial", "reg": 0, "name": "c", "src": INC}, {"op": "reg_template", "reg": 0, "name": "c", "src": INC, "tname": "c"}]
+    d = 0
+    for w in ways:
+        for hist in ([ML, PI(True), w], [PI(True), ML, w, PI(False)], [ML, w, PI(True)], [PI(True), w, ML, {"op": "clone", "reg": 0}, PI(False)],
+                     [ML, PI(True), {"op": "set_dev", "reg": 0, "v": True}, w, {"op": "set_dev", "reg": 0, "v": False}]):
+            out.append(build([dict(o) for o in hist], "%s-d%03d" % (ID, d)))
+            d += 1
+    # directed: a FAILED registration over a tracked name, by every way of registering, with the file changing before / after
+    DEV = {"op": "set_dev", "reg": 0, "v": True}
+    TRK = {"op": "reg_file", "reg": 0, "name": "a", "file": "f1"}
+    WR = lambda c: {"op": "write_file", "file": "f1", "content": c}
+    fails = [{"op": "reg_string", "reg": 0, "name": "a", "src": "{{#if x}}"}, {"op": "reg_partial", "reg": 0, "name": "a", "src": "{{/each}}"},
+             {"op": "reg_template", "reg": 0, "name": "a", "src": "{{foo 1.}}", "tname": "a"}, {"op": "reg_file", "reg": 0, "name": "a", "file": "f3"}]
+    for fl in fails:
+        for hist in ([DEV, TRK, fl, WR("F3")], [DEV, TRK, WR("F3"), fl], [DEV, TRK, WR("{{#bad"), dict(TRK), WR("F3")],
+                     [DEV, TRK, fl, WR("F3"), {"op": "set_dev", "reg": 0, "v": False}], [TRK, DEV, fl, WR("F3")],
+                     [DEV, TRK, {"op": "clone", "reg": 0}, fl, WR("F3")]):
+            out.append(build([dict(o) for o in hist], "%s-d%03d" % (ID, d)))
+            d += 1
     for j in range(n):
         r = rng.fork(j)
         hist = []
